@@ -437,6 +437,27 @@ def run(ctx):
             viol.append({'why': 'two spellings of the same program behave differently' if v == 'DIFF' else 'one spelling is accepted, the other rejected: %s' % (d,),
                          'rewrites': applied[pid], 'detail': d, 'level': O, 'original': small_a.source(), 'rewritten': small_b.source(),
                          'features': sorted(fs)})
+    # spellings of an update of a 16-bit ELEMENT (arrays of shorts and of pointers; the C semantics of the harness has
+    # no such arrays): both spellings are compiled and run on the extracted 6502 from the same states
+    ESRC = 'short sarr[4]; char *pa[2]; short t; unsigned char a;\nvoid main() { %s }\n'
+    epairs = [('sarr[2]++;', 'sarr[2] += 1;'), ('sarr[1]--;', 'sarr[1] -= 1;'), ('++sarr[3];', 'sarr[3] = sarr[3] + 1;'), ('pa[1]++;', 'pa[1] += 1;'),
+              ('pa[0]--;', 'pa[0] -= 1;'), ('sarr[X]++;', 'sarr[X] += 1;'), ('sarr[X]--;', 'sarr[X] -= 1;'), ('sarr[2]++; sarr[2]++;', 'sarr[2] += 2;'),
+              ('t = sarr[2]; sarr[2]++;', 't = sarr[2]; sarr[2] += 1;'), ('sarr[0]--; sarr[1]++;', 'sarr[0] -= 1; sarr[1] += 1;')]
+    esrcs = {'e%d' % i: {'a': ESRC % x, 'b': ESRC % y} for i, (x, y) in enumerate(epairs)}
+    nel = 0
+    for O in (['-O1'] if quick else ['-O0', '-O1']):
+        ecomp = compile_variants(esrcs, {'a': [O], 'b': [O]})
+        eok = {k: v for k, v in ecomp.items() if all(r['status'] == 'ok' for r in v.values())}
+        for pid, m in coexec(eok, 48, rng, small_index=True).items():
+            for k in range(len(m['states'])):
+                ra, rb = m['runs']['a'].get(k), m['runs']['b'].get(k)
+                nel += 1
+                if ra is None or rb is None or observable(ra) != observable(rb):
+                    viol.append({'why': 'two spellings of an update of a 16-bit array element end in different states', 'level': O,
+                                 'a': esrcs[pid]['a'], 'b': esrcs[pid]['b'], 'initial': describe_state(m['layout'], m['states'][k], m['watch']),
+                                 'run_a': describe_run(m['layout'], ra, m['watch']) if ra else None, 'run_b': describe_run(m['layout'], rb, m['watch']) if rb else None})
+                    break
+    ctx.cov['correspondence']['corr-S 16-bit element spellings'] = {'pairs': len(epairs), 'executions_compared': nel}
     ctx.cov['programs'] = sum(stats.values())
     ctx.cov['evaluations'] = sum(stats.values()) + ncell
     ctx.cov['distinct_nontrivial'] = stats.get('agree', 0)
